@@ -193,3 +193,98 @@ def origins(mir, local, asg=None, seen=None, through_deref=True):
     if not asg.get(local) and local <= mir["argc"] and local != 0:
         out.append((None, None, {"k": "Param", "index": local}, local))
     return out
+
+
+def _place_uses(pl, out):
+    out.add(pl["l"])
+    for e in pl["p"]:
+        if isinstance(e, dict) and "idx" in e:
+            out.add(e["idx"])
+
+
+def _operand_uses(o, out):
+    for k in ("copy", "move"):
+        if k in o:
+            _place_uses(o[k], out)
+
+
+def _rv_uses(rv, out, addr_taken):
+    k = rv["k"]
+    if k in ("Use", "Repeat", "Cast", "WrapUnsafeBinder"):
+        _operand_uses(rv["op"], out)
+    elif k == "BinaryOp":
+        _operand_uses(rv["l"], out)
+        _operand_uses(rv["r"], out)
+    elif k == "UnaryOp":
+        _operand_uses(rv["e"], out)
+    elif k == "Aggregate":
+        for o in rv["ops"]:
+            _operand_uses(o, out)
+    elif k in ("Ref", "RawPtr"):
+        _place_uses(rv["place"], out)
+        addr_taken.add(rv["place"]["l"])
+    elif k in ("Discriminant", "CopyForDeref"):
+        _place_uses(rv["place"], out)
+
+
+def liveness(mir):
+    """live_in[b] = set of locals live at entry of block b; locals whose address is taken are always live."""
+    bl = mir["blocks"]
+    n = len(bl)
+    use = [set() for _ in range(n)]
+    defs = [set() for _ in range(n)]
+    addr_taken = set()
+    for bi, b in enumerate(bl):
+        u, d = use[bi], defs[bi]
+        for s in b["stmts"]:
+            if s["k"] == "Assign":
+                tmp = set()
+                _rv_uses(s["rv"], tmp, addr_taken)
+                pl = s["place"]
+                if pl["p"]:
+                    tmp.add(pl["l"])  # partial write keeps the rest live
+                    for e in pl["p"]:
+                        if isinstance(e, dict) and "idx" in e:
+                            tmp.add(e["idx"])
+                u |= (tmp - d)
+                if not pl["p"]:
+                    d.add(pl["l"])
+            elif s["k"] == "SetDiscriminant":
+                if s["place"]["l"] not in d:
+                    u.add(s["place"]["l"])
+        t = b["term"]
+        tmp = set()
+        if t["k"] == "SwitchInt":
+            _operand_uses(t["discr"], tmp)
+        elif t["k"] == "Call":
+            for a in t["args"]:
+                _operand_uses(a, tmp)
+            if "fptr" in t:
+                _operand_uses(t["fptr"], tmp)
+            if t["dest"]["p"]:
+                tmp.add(t["dest"]["l"])
+        elif t["k"] == "Assert":
+            _operand_uses(t["cond"], tmp)
+        elif t["k"] == "Drop":
+            _place_uses(t["place"], tmp)
+        elif t["k"] == "Return":
+            tmp.add(0)
+        u |= (tmp - d)
+        if t["k"] == "Call" and not t["dest"]["p"]:
+            d.add(t["dest"]["l"])
+    live_in = [set() for _ in range(n)]
+    changed = True
+    while changed:
+        changed = False
+        for bi in range(n - 1, -1, -1):
+            out = set()
+            for sx in succs(bl[bi]["term"]):
+                out |= live_in[sx]
+            new = use[bi] | (out - defs[bi])
+            if new != live_in[bi]:
+                live_in[bi] = new
+                changed = True
+    for li in live_in:
+        li |= addr_taken
+        li |= set(range(1, mir["argc"] + 1))
+    return live_in
